@@ -172,27 +172,24 @@ func (x *X) Sim(o SimOpts, main func()) *dsim.Info {
 	return info
 }
 
-// waitSig: stable description of who waits for what (goroutine names are creation sites).
+// waitSig: stable description of what the blocked goroutines wait for (the set of wait kinds;
+// who and how many varies from schedule to schedule and is in the detail, not in the signature).
 func waitSig(blocked []string) string {
 	seen := map[string]bool{}
 	var out []string
 	for _, b := range blocked {
-		// "g3(name) waits on X" -> "name waits on X"
-		i := strings.Index(b, "(")
-		j := strings.Index(b, ")")
-		if i >= 0 && j > i {
-			b = b[i+1:j] + b[j+1:]
-		}
-		if strings.HasSuffix(b, " runnable") {
+		i := strings.Index(b, " waits on ")
+		if i < 0 {
 			continue
 		}
-		if !seen[b] {
-			seen[b] = true
-			out = append(out, b)
+		k := b[i+len(" waits on "):]
+		if !seen[k] {
+			seen[k] = true
+			out = append(out, k)
 		}
 	}
 	sort.Strings(out)
-	return strings.Join(out, "; ")
+	return "blocked on {" + strings.Join(out, ", ") + "}"
 }
 
 // ---------------------------------------------------------------------------------------
